@@ -32,13 +32,14 @@ func under(p, node string) bool {
 // copy-on-write with the live file system.
 func (f *FS) Snapshot(node string) *Image {
 	img := &Image{Node: node, Files: map[string]*ImgFile{}, Dirs: map[string]bool{}}
-	for p, ino := range f.files {
+	for _, p := range f.files.keysCopy() {
+		ino, _ := f.files.get(p)
 		if under(p, node) {
 			ino.shared = true
 			img.Files[p] = &ImgFile{Data: ino.data[:len(ino.data):len(ino.data)], SyncedLen: ino.syncedLen, Shadow: ino.shadow, HasShadow: ino.hasShadow}
 		}
 	}
-	for d := range f.dirs {
+	for _, d := range f.dirs.keysCopy() {
 		if under(d, node) {
 			img.Dirs[d] = true
 		}
@@ -63,22 +64,23 @@ func (img *Image) Clone() *Image {
 // incarnation (handles of earlier incarnations become stale).
 func (f *FS) Mount(img *Image) int {
 	node := img.Node
-	for p, ino := range f.files {
+	for _, p := range f.files.keysCopy() {
+		ino, _ := f.files.get(p)
 		if under(p, node) {
 			ino.nlink = 0
-			delete(f.files, p)
+			f.files.del(p)
 		}
 	}
-	for d := range f.dirs {
+	for _, d := range f.dirs.keysCopy() {
 		if under(d, node) {
-			delete(f.dirs, d)
+			f.dirs.del(d)
 		}
 	}
 	for p, fl := range img.Files {
-		f.files[p] = &inode{data: fl.Data[:len(fl.Data):len(fl.Data)], shared: true, syncedLen: fl.SyncedLen, shadow: fl.Shadow, hasShadow: fl.HasShadow, mtime: now(), nlink: 1}
+		f.files.set(p, &inode{data: fl.Data[:len(fl.Data):len(fl.Data)], shared: true, syncedLen: fl.SyncedLen, shadow: fl.Shadow, hasShadow: fl.HasShadow, mtime: now(), nlink: 1})
 	}
 	for d := range img.Dirs {
-		f.dirs[d] = true
+		f.dirs.set(d, true)
 	}
 	n := f.Node(node)
 	n.Gen++
@@ -278,7 +280,7 @@ func (img *Image) Describe() string {
 
 // ReadFileRaw returns the volatile content of a live file (harness use, no faults).
 func (f *FS) ReadFileRaw(p string) ([]byte, bool) {
-	ino, ok := f.files[clean(p)]
+	ino, ok := f.files.get(clean(p))
 	if !ok {
 		return nil, false
 	}
@@ -288,7 +290,7 @@ func (f *FS) ReadFileRaw(p string) ([]byte, bool) {
 // ListRaw returns the live file paths under a prefix, sorted (harness use).
 func (f *FS) ListRaw(prefix string) []string {
 	var out []string
-	for p := range f.files {
+	for _, p := range f.files.keysCopy() {
 		if strings.HasPrefix(p, prefix) {
 			out = append(out, p)
 		}
